@@ -78,7 +78,7 @@ CHECKS["C18"] = {
         {"re": r"fatal error: (runtime: )?(out of memory|cannot allocate memory)|runtime: out of memory|panic: runtime error: makeslice: len out of range",
          "also": [r"protoio\.\(\*(varintReader|uint32Reader)\)\.ReadMsg"], "identity": "process-crash/alloc-beyond-limit"},
     ],
-    "mandatory_labels": {"all": ["roundtrip/over-limit-frame-not-first", "roundtrip/multi-frame-chunked", "roundtrip/marshalTo-path", "hostile/bad-frame-not-first",
+    "mandatory_labels": {"all": ["roundtrip/over-limit-frame-not-first", "roundtrip/multi-frame-chunked", "roundtrip/marshalTo-path", "roundtrip/destination-reused-for-a-shorter-frame", "hostile/bad-frame-not-first",
                                  "hostile/hostile-length", "hostile/truncated", "hostile/overlong-varint", "chunking/exhaustive", "arbitrary"]},
 }
 
@@ -448,6 +448,7 @@ _ADDED6 = {
     "C08": "Group-context layer with an undecodable entry inside a delivered batch; the receiving device may be a second device of the sender's own account (multi-member group or account group).",
     "C13": "The whole (since, until, reverse) cube also over merged logs of two writers with concurrent entries, on two replicas.",
     "C16": "The controlled scheduler models sync.RWMutex writer preference (readers arriving after a waiting writer wait behind it); the peer cache scenarios add readers (GetPeersForTopics / GetPeers) next to updater and waiters.",
+    "C18": "Round trips also read every frame of a type into the same destination object (the usual receive loop), with frames of length zero after longer ones.",
     "C19": "Odd groups (validly signed invitations with secrets of unusual length) joined and then used by the other requests.",
     "C20": "An older backup refused into an existing account followed by the current export.",
 }
